@@ -405,6 +405,7 @@ func (st *stress) reader(c int, r *gen.Rand, wg *sync.WaitGroup) {
 				st.seen[p.S].CompareAndSwap(0, endSeq)
 			}
 		}
+		recheck := 0
 		// values: every returned row is exactly one write that had started before the query ended, not torn, and
 		// not older than the last write of that point acknowledged before the query started
 		for p, x := range res.rows {
@@ -440,7 +441,18 @@ func (st *stress) reader(c int, r *gen.Rand, wg *sync.WaitGroup) {
 				for _, e := range ents {
 					hist += fmt.Sprintf(" (code %d start %d ack %d)", e.code, e.startSeq, e.ackSeq.Load())
 				}
-				st.failSig(ix.sigOf(p, ents[lastAcked]), "stale-value", c, qn, "series %d time %d: returned code %d although the later write %d was acknowledged before the query started; query clock %d..%d range %d..%d asc=%v flush gen %d..%d flushing %v..%v; writes of the point:%s; background events since the lost write:%s", p.S, p.K, x.V, ents[lastAcked].code, startSeq, endSeq, kmin, kmax, asc, fg, st.flushGen.Load(), fl, st.flushing.Load() > 0, hist, st.eventsBetween(ents[lastAcked].startSeq, endSeq))
+				// is the stale answer transient (a torn view) or durable (the newer version is lost / shadowed)?
+				again := "not re-read"
+				if recheck < 3 {
+					recheck++
+					r2 := st.doQuery(qm, p.K, p.K, true)
+					if y, ok := r2.rows[p]; ok {
+						again = fmt.Sprintf("a second query at clock %d returns code %d", st.tick(), y.V)
+					} else {
+						again = fmt.Sprintf("a second query returns no row (err %v)", r2.err)
+					}
+				}
+				st.failSig(ix.sigOf(p, ents[lastAcked]), "stale-value", c, qn, "series %d time %d: returned code %d although the later write %d was acknowledged before the query started; %s; query clock %d..%d range %d..%d asc=%v flush gen %d..%d flushing %v..%v; writes of the point:%s; background events since the lost write:%s", p.S, p.K, x.V, ents[lastAcked].code, again, startSeq, endSeq, kmin, kmax, asc, fg, st.flushGen.Load(), fl, st.flushing.Load() > 0, hist, st.eventsBetween(ents[lastAcked].startSeq, endSeq))
 			}
 		}
 		if nowClosing {
